@@ -22,6 +22,7 @@ mod rot;
 mod rt;
 mod spec;
 mod sstr;
+mod sweep;
 
 use std::collections::HashMap;
 
@@ -107,6 +108,7 @@ fn main() {
         "c16" => c16::main(&a),
         "c17" => c17::main(&a),
         "miri" => miri::main(&a),
+        "sweep" => sweep::main(&a),
         "c06" => c06::main(&a),
         "c07" => c07::main(&a),
         "c08" => c08::main(&a),
